@@ -70,6 +70,38 @@ def gen_facts():
     rc, out = sh([os.path.join(CACHE, "implsrv"), "facts", gdir], env=env)
     if rc != 0:
         raise TieBroken("facts", out)
+    gen_sites()
+
+
+def gen_sites():
+    """typed inventory (go/types, ~15 s) cached by the content hash of /repo's non-test .go files"""
+    h = hashlib.sha256()
+    for root, dirs, files in os.walk(REPO):
+        dirs[:] = sorted(d for d in dirs if d != ".git")
+        for f in sorted(files):
+            if f.endswith(".go") and not f.endswith("_test.go") or f == "go.mod":
+                h.update(os.path.join(root, f).encode())
+                h.update(open(os.path.join(root, f), "rb").read())
+    h.update(open(os.path.join(VERIF, "tools", "sites", "main.go"), "rb").read())
+    key = h.hexdigest()[:24]
+    cached = os.path.join(CACHE, "sites-%s.lean" % key)
+    target = os.path.join(LEAN, "GontainerModel", "Generated", "Sites.lean")
+    if not os.path.exists(cached):
+        exe = os.path.join(CACHE, "sites")
+        rc, out = sh(["go", "build", "-o", exe, "."], cwd=os.path.join(VERIF, "tools", "sites"), env=GOENV)
+        if rc != 0:
+            raise RuntimeError("sites tool does not build: " + out)
+        tmpd = tempfile.mkdtemp(prefix="verif-sites-")
+        try:
+            rc, out = sh([exe, tmpd], cwd=REPO, env=GOENV, timeout=600)
+            if rc != 0:
+                raise TieBroken("sites", out)
+            shutil.copy(os.path.join(tmpd, "Sites.lean"), cached)
+        finally:
+            shutil.rmtree(tmpd, ignore_errors=True)
+    new = open(cached).read()
+    if not os.path.exists(target) or open(target).read() != new:
+        open(target, "w").write(new)
 
 
 def lake_build(targets, timeout=3000):
